@@ -406,12 +406,15 @@ variable [Scalar α]
 
 /-- the computation shared by `product2Raw` and `product3Raw` once the cell tables are built; `c k` is the
     candidate for the joint uncertainty contributed by cell `k` (`prodCand2` / `prodCand3` at the cell's
-    coordinates since repair abca806) -/
+    coordinates since repair abca806); every joint mass is clamped at zero since repair b817f74 (cell by cell, so the
+    clamp commutes with every relabelling) -/
 def rawOf {N : Nat} (p a : Tab α N) (c : Fin N → α) : Opinion α N :=
   let u := Tab.reduceL Scalar.min
     (((List.finRange N).filter fun k => Scalar.gt a[k] Scalar.zero).map c)
     (Tab.nanOf α)
-  let b : Tab α N := Vector.ofFn fun k => p[k] - a[k] * u
+  let b : Tab α N := Vector.ofFn fun k =>
+    let b := p[k] - a[k] * u
+    if Scalar.lt b Scalar.zero then Scalar.zero else b
   ⟨b, u, a⟩
 
 theorem product2Raw_eq (w0 : Opinion α n0) (w1 : Opinion α n1) :
